@@ -181,13 +181,32 @@ class Harness(cm.BaseB):
                 for r, c in sel:
                     arr[r, c] = 1
             s = commands.evo_get_selection(R, C, arr)
+            if (R == 1 or C == 1) and sel and R * C > 1:
+                im = arr.astype(np.int64)
+                im0 = im.copy()
+                for attempt in (1, 2):
+                    s2 = commands.evo_get_selection(R, C, im)
+                    if s2 != s:
+                        V.append(("C12/array-layout", f"{R}x{C} {sorted(sel)[:6]}: int64 mask gives {s2!r} (call #{attempt}), float mask gives {s!r}"))
+                        break
+                if not np.array_equal(im, im0):
+                    V.append(("C12/array-layout", f"{R}x{C}: evo_get_selection modified the caller's int64 mask"))
             if R > 1 and C > 1 and sel and (len(sel) + R) % 3 == 0:
                 # the same mask in column-major memory layout, as a transposed view, as bool and as int
                 keep = arr.copy()
-                for alt, name in ((np.asfortranarray(arr), "Fortran-ordered"), (np.ascontiguousarray(arr.T).T, "transposed view"), (arr.astype(bool), "bool"), (arr.astype(int), "int")):
-                    s2 = commands.evo_get_selection(R, C, alt)
-                    if s2 != s:
-                        V.append(("C12/array-layout", f"{R}x{C} {sorted(sel)[:6]}: {name} mask gives {s2!r}, C-ordered float mask gives {s!r}"))
+                alts = (
+                    (np.asfortranarray(arr), "Fortran-ordered"), (np.ascontiguousarray(arr.T).T, "transposed view"), (arr.astype(bool), "bool"), (arr.astype(int), "int"),
+                    (np.asfortranarray(arr.astype(np.int64)), "Fortran-ordered int64"), (np.ascontiguousarray(arr.astype(np.int64).T).T, "transposed int64 view"), (arr.astype(np.uint8), "uint8"),
+                )
+                for alt, name in alts:
+                    alt0 = alt.copy()
+                    for attempt in (1, 2):  # the caller uses its mask more than once
+                        s2 = commands.evo_get_selection(R, C, alt)
+                        if s2 != s:
+                            V.append(("C12/array-layout", f"{R}x{C} {sorted(sel)[:6]}: {name} mask gives {s2!r} (call #{attempt}), C-ordered float mask gives {s!r}"))
+                            break
+                    if not np.array_equal(alt, alt0):
+                        V.append(("C12/array-layout", f"{R}x{C}: evo_get_selection modified the caller's {name} mask"))
                 if not np.array_equal(arr, keep):
                     V.append(("C12/array-layout", f"{R}x{C}: evo_get_selection modified the caller's mask"))
         except Exception as e:
